@@ -77,6 +77,7 @@ class Trace:
         self.kwargs: Dict[str, Any] = {}
         self.intercepted: Dict[str, List[Any]] = {}
         self.user_array_modified = 0  # times the library wrote into an array owned by the user's jac
+        self.bad_args = 0  # calls of fun/jac that did not receive exactly the `args` tuple given to the solver
 
     @property
     def nf(self) -> int:
@@ -103,6 +104,8 @@ def make_closures(
 
     def fun(x, *args):
         i = len(tr.fun_calls)
+        if tuple(args) != tuple(holder.get("args", ())):
+            tr.bad_args += 1
         if gate is not None:
             gate("f")
         if fault is not None and fault["kind"] == "fun" and fault["index"] == i:
@@ -118,6 +121,8 @@ def make_closures(
 
     def jac(x, *args):
         i = len(tr.jac_calls)
+        if tuple(args) != tuple(holder.get("args", ())):
+            tr.bad_args += 1
         if gate is not None:
             gate("g")
         if fault is not None and fault["kind"] == "jac" and fault["index"] == i:
@@ -189,6 +194,12 @@ def run_min(
             kw[k] = cfg[k]
     if extra:
         kw.update(extra)
+    if "args" in kw:
+        holder["args"] = tuple(kw["args"])
+    if isinstance(kw.get("eps"), list):
+        kw["eps"] = np.array(kw["eps"], dtype=float)
+    if isinstance(kw.get("finite_diff_rel_step"), list):
+        kw["finite_diff_rel_step"] = np.array(kw["finite_diff_rel_step"], dtype=float)
     if checkpoint is not None:
         kw["checkpoint"] = checkpoint
 
